@@ -114,7 +114,11 @@ func (g GenOpts) bodyOp(rnd *rand.Rand, types []string, owner Op) Op {
 		case 5:
 			return Op{Op: "has", T: pick(rnd, types)}
 		case 6:
-			return g.subOp(rnd, types, 1)
+			o := g.subOp(rnd, types, 1)
+			if rnd.IntN(2) == 0 {
+				o.T = owner.T // a handler that subscribes another handler for its own event type
+			}
+			return o
 		case 7:
 			// a nested publish is only finite if the publishing registration fires once
 			if owner.Once && !(owner.Seq && g.SeqNoBody) && !owner.Seq {
